@@ -9,7 +9,7 @@ using namespace vf;
 
 namespace {
 
-enum { K_BYTES = 0, K_NEST = 1 };
+enum { K_BYTES = 0, K_NEST = 1, K_FAULT = 2 };
 enum Mode { M_SAFETY, M_DECODE, M_REJECT, M_ENDPTR };
 
 const uint8_t SIGMA_B[] = { '[', ']', '{', '}', ',', ':', '"', '\\', '/', 'u', 'D', '8', 'C', '0', '1', '9', '-', '+', '.', 'e', 'E',
@@ -50,7 +50,7 @@ struct XParse : Engine {
     GuardMap gm; Mode mode = M_SAFETY; bool verbose = false;
     std::vector<std::string> seeds;
     const char* name() override { return "x_parse"; }
-    std::vector<std::string> counter_names() override { return { "lib_accepts", "S_accepts", "L_rejects", "L_unknown", "trees_walked", "prefix_reparses", "string_entry_inputs" }; }
+    std::vector<std::string> counter_names() override { return { "lib_accepts", "S_accepts", "L_rejects", "L_unknown", "trees_walked", "prefix_reparses", "string_entry_inputs", "refused_requests" }; }
 
     void worker_init() override { init(); gm.create(1 << 20); }
     void init() {
@@ -67,7 +67,7 @@ struct XParse : Engine {
         for (long p = 0; p <= pc; p++) st.push_back("pieces" + std::to_string(p));
         st.push_back("nest");
         if (mode == M_DECODE || mode == M_SAFETY) { st.push_back("u16"); st.push_back("surrogates"); st.push_back("numbers"); st.push_back("digits"); st.push_back("trees"); }
-        if (mode != M_DECODE) { st.push_back("nearmiss"); st.push_back("edits"); }
+        if (mode != M_DECODE) { st.push_back("nearmiss"); st.push_back("edits"); st.push_back("faults"); }
         return st;
     }
 
@@ -124,6 +124,14 @@ struct XParse : Engine {
             }
             // long runs of number characters that contain no convertible number (must be rejected without leaving anything behind)
             for (int len : { 5, 62, 63, 64, 65, 70, 130 }) for (const char* pre : { "--", "-e", "-.e", "-+", "-.", "-E-" }) for (int ctx = 0; ctx < 3; ctx++) { std::string b = std::string(pre) + std::string((size_t)len, '7'); emit(ctx == 0 ? b : ctx == 1 ? "[" + b + "]" : "{\"k\":" + b + "}"); }
+            // a long well-formed number followed by every tail of up to 4 number characters (whatever is done with the part that does not fit a
+            // fixed-size scratch buffer, the whole token still has to be a JSON number)
+            { static const char TA[] = { '-', '+', '.', 'e', 'E', '5' };
+              for (int len : { 61, 62, 63, 64, 65, 70, 130 }) for (int form = 0; form < 5; form++) {
+                std::string h; switch (form) { case 0: h.assign((size_t)len, '1'); break; case 1: h = "0." + std::string((size_t)len - 2, '3'); break; case 2: h = "-12." + std::string((size_t)len - 4, '9'); break; case 3: h = std::string((size_t)len - 3, '7') + "e-1"; break; default: h = "1." + std::string((size_t)len - 5, '0') + "5E+"; break; }
+                if (!pool_take()) continue;
+                for (int tl = 1; tl <= 4; tl++) { std::vector<int> od((size_t)tl, 0); for (;;) { std::string t; for (int i = 0; i < tl; i++) t += TA[od[(size_t)i]]; emit_now("[" + h + t + "]"); if (tl <= 2) { emit_now(h + t); emit_now("{\"a\":" + h + t + ",\"b\":1}"); } int i = tl - 1; while (i >= 0 && ++od[(size_t)i] == (int)sizeof TA) od[(size_t)i--] = 0; if (i < 0) break; } }
+              } }
             // literals that overflow / underflow in strtod (they set errno = ERANGE; nothing may depend on that later)
             for (const char* v : { "1e999", "-1e999", "[1e400]", "1e-999", "[2.5e-310]", "{\"n\":4.9406564584124654e-324}", "123456789e300", "0.1e-320" }) { emit(v); emit(std::string(v) + " "); emit("[1,2.5,\"after\"]"); }
             // BOM followed by 0..2 alphabet bytes, doubled BOM, BOM inside
@@ -190,6 +198,12 @@ struct XParse : Engine {
                                           "{:1}", "{\"a\":1,}", "{,\"a\":1}", "{1:1}", "{a:1}", "{\"a\" 1}", "{\"a\"::1}", "[1 2]", "[1:2]", "{\"a\":1 \"b\":2}", "{\"a\":1:2}", "[1]]", "{}}", "[}", "{]", "[1}", "{\"a\":1]", "\\u0041", "nan", "inf", "tRue", "\"\\u00\"", "\"\\uD800\"", "\"\\uDC00\\uD800\"", "\"\\uZZZZ\"", "\"\\u00G1\"", "\"\\u 041\"", "\"\\u-123\"", "\"\\u+123\"", "\"\\u0x41\"", "\"\\U0041\"", "\"\\a\"", "\"\\'\"", "\"\\0\"", "\"\\\n\"", "\"\\uD800\\n\"", "\"\\uD800\\uD800\"", "\"\\uD800\\u0041\"", "\"\\uD800\\uE000\"", "\"\\uD800\\uDBFF\"" };
             static const char* ctxs[] = { "%s", "[%s]", "[1,%s]", "[%s,1]", "{\"a\":%s}", "{%s:1}", "{\"a\" %s}", " %s ", "[[%s]]", "{\"a\":1,%s}", "{\"a\":1,\"b\":%s}", "%s ", "[1,%s", "{\"a\":[%s]}" };
             for (auto v : vals) for (auto cx : ctxs) { if (!pool_take()) continue; std::string s = cx; size_t p = s.find("%s"); s.replace(p, 2, v); emit_now(s); emit_now_extra(s + std::string(1, '\0')); }
+        } else if (stage == "faults") {
+            // every allocation request of a parse refused in turn, for all token sequences up to 3 tokens and the hand-written texts, through every entry point:
+            // a parse that fails for lack of memory is a failed parse like any other (NULL, nothing left allocated, error position reported inside the buffer)
+            load_seeds(); const int NT = sizeof SIGMA_T / sizeof *SIGMA_T;
+            for (auto& seed : seeds) { if (!pool_take()) continue; static Case c; c.kind = K_FAULT; if (seed.size() > 700) continue; c.set(seed); pool_run(c); }
+            for (int m = 1; m <= 3; m++) { std::vector<int> od((size_t)m, 0); for (;;) { if (pool_take()) { std::string t; for (int i = 0; i < m; i++) t += SIGMA_T[od[(size_t)i]]; static Case c; c.kind = K_FAULT; c.set(t); pool_run(c); } int i = m - 1; while (i >= 0 && ++od[(size_t)i] == NT) od[(size_t)i--] = 0; if (i < 0) break; } }
         } else if (stage == "edits") {
             load_seeds();
             const int A = sizeof SIGMA_B;
@@ -356,8 +370,31 @@ struct XParse : Engine {
         if (!R[0].ok && R[1].ok) V("endptr", "require-accepts-more", "requiring termination succeeded where the plain parse failed");
     }
 
+    void run_faults(const std::string& b) {
+        size_t n = b.size(); std::string bz = b; bz.push_back('\0'); bool nul_inside = memchr(b.data(), 0, n) != nullptr;
+        static const char* const names[] = { "ParseWithLengthOpts(end,0)", "ParseWithLengthOpts(end,1)", "ParseWithLengthOpts(NULL,0)", "ParseWithLengthOpts(NULL,1)", "ParseWithLength", "Parse", "ParseWithOpts(end,0)", "ParseWithOpts(end,1)", "ParseWithOpts(NULL,0)", "ParseWithOpts(NULL,1)" };
+        for (int variant = 0; variant < 10; variant++) {
+            bool str = variant >= 5; if (str && nul_inside) continue;
+            const uint8_t* ro; size_t len = str ? n + 1 : n; gm.place_end(str ? bz.data() : b.data(), len, &ro); const char* start = (const char*)ro;
+            Res plain = call(variant, ro, len, names[variant]); bool plain_ok = plain.ok; drop(plain, names[variant], false);
+            for (uint64_t k = 1; k <= 64; k++) {
+                ledger_arm_fault(k, false); Res r = call(variant, ro, len, names[variant]); bool fired = ledger_fault_fired(); ledger_arm_fault(0, false); ctr().extra[7]++;
+                if (!fired) { drop(r, names[variant], false); break; }
+                std::string lb = std::string(names[variant]) + " with allocation request " + std::to_string(k) + " refused";
+                if (r.ok) { if (!plain_ok) V("reject", "malformed-accepted", lb + ": a text that is rejected otherwise was parsed"); drop(r, names[variant], false); continue; }   // completing normally despite the refusal is allowed
+                bool has_end = variant == 0 || variant == 1 || variant == 6 || variant == 7; size_t last = len ? len - 1 : 0;
+                if (has_end) { if (r.end == SENT()) V("endptr", "error-end-not-set", lb + ": return_parse_end not written on failure"); else if (r.end != r.err) V("endptr", "end-differs-from-errorptr", lb + ": *return_parse_end != cJSON_GetErrorPtr()"); }
+                if (r.err == nullptr) V("endptr", "errorptr-null-after-failure", lb + ": cJSON_GetErrorPtr() is NULL after a failed parse");
+                else if (r.err < start || r.err > start + last) V("endptr", "errorptr-out-of-range", lb + ": error position outside the buffer");
+                note_outcome(0xF000 | (uint64_t)variant << 4 | (uint64_t)(r.err != nullptr));
+            }
+            if (memcmp(ro, str ? bz.data() : b.data(), len) != 0) V("safety", "input-modified", "input buffer was modified");
+        }
+        ctr().compared++; ctr().nontrivial++;
+    }
     void run_case(const Case& c, bool vb) override {
         init(); verbose = vb;
+        if (c.kind == K_FAULT) { std::string fb = c.str(); cur_n = fb.size(); curdesc = "\"" + printable(fb.substr(0, 120)) + "\""; uint64_t e0 = L.errors; long l0 = ledger_live(); run_faults(fb); if (L.errors != e0) V("safety", "allocator-misuse", L.first_error); if (ledger_live() != l0) V("safety", "leak", "allocation balance after the fault runs is " + std::to_string(ledger_live() - l0)); return; }
         std::string b = c.kind == K_NEST ? nest_bytes((int)c.iv[1], (long)c.iv[2]) : c.str();
         size_t n = b.size(); cur_n = n;
         curdesc = c.kind == K_NEST ? describe(c) : "\"" + printable(b.substr(0, 120)) + "\"" + (n > 120 ? "..." : "");
